@@ -368,7 +368,12 @@ func (v *Value) Contains(other *Value) bool {
 	case reflect.Slice, reflect.Array:
 		for i := 0; i < baseValue.Len(); i++ {
 			item := baseValue.Index(i)
-			if other.EqualValueTo(AsValue(item.Interface())) {
+			// The items of an in-template list literal are *Value already
+			itemValue, isValue := item.Interface().(*Value)
+			if !isValue {
+				itemValue = AsValue(item.Interface())
+			}
+			if other.EqualValueTo(itemValue) {
 				return true
 			}
 		}
